@@ -27,7 +27,10 @@ def share : ShareFacts :=
     lookup2DefineFresh := true,         -- since 5a404d3 (was F04-12): `dest := genValueDefine(n.anc.child[0])`, same for the status
     lookup2RedeclInPlace := true,       -- … `if n.anc.kind != defineXStmt || n.redeclared || n.ident == "_" { return genValue(n) }`
     appendArgsAreSlots := false,        -- since b312e89 (was F04-6): operands copied into a fresh slice, then reflect.AppendSlice
-    derefNilPanics := true }            -- since 93fb945 (was F04-10): `if !r.IsValid() { _ = *nilPtr }`
+    derefNilPanics := true,             -- since 93fb945 (was F04-10): `if !r.IsValid() { _ = *nilPtr }`
+    recvAssignsValue := true,           -- since 177a151 (was F08-7): no `src.action == aRecv` arm, the unaryExpr shortcut excludes aRecv
+    assertDefineFresh := true,          -- since 2fe0a18 (was F04-14): `value0 = genValueDefine(n.anc.child[0])`, same for the status
+    assertZeroOnFail := true }          -- … `if withResult && !*ok { v := value0(f); v.Set(reflect.Zero(v.Type())) }`
 
 /-- fingerprints (extract/common FuncHash) of the functions Model/Share.lean was transcribed from -/
 def sourceHashes : List (String × String) :=
@@ -41,25 +44,27 @@ def sourceHashes : List (String × String) :=
    ("getFunc", "767f1bf470b0d0fd"),
    ("getIndexSeq", "c66a0fd6057b0616"),
    ("getPtrIndexSeq", "6be9b51311dc6a9e"),
-   ("arrayLit", "3fbd1dfe2ea8205b"),
-   ("mapLit", "3846e3b67d9fd287"),
+   ("arrayLit", "0039cb31dfc777e6"),
+   ("mapLit", "bd18da6689e04fa9"),
    ("genValueLit", "23846498d2edfdda"),
    ("genValueDefine", "7c0f83aa46790e55"),
+   ("typeAssert", "90e50bd038426751"),
+   ("recv", "62c5f304a4403670"),
    ("doComposite", "cc9a326983ac6414"),
-   ("_range", "981bda182a8cb10c"),
+   ("_range", "91f984a91592c6a4"),
    ("loopVarKey", "850d1ef64799110f"),
    ("loopVarVal", "fcbafb1e09580702"),
-   ("_append", "c34b81801c49e707"),
+   ("_append", "162ec1ccda4737c3"),
    ("appendSlice", "c67551dae27bed57"),
    ("_copy", "071999c49adb327a"),
    ("_delete", "3814292d45cb5cab"),
    ("slice", "943a0297b4418338"),
    ("slice0", "e3dfcf7fb18203eb"),
    ("call: exec of an ordinary call", "8fac3922f6ab661a"),
-   ("genValueRangeArray", "85bb294bc9e6c2d8"),
+   ("genValueRangeArray", "e367de7280104450"),
    ("genValueArray", "7423f6a50d5d826f"),
    ("genDestValue", "6d332c89aa45b5ab"),
-   ("cfg.go: case assignStmt, defineStmt", "2b7bcb2f42e23fe8"),
+   ("cfg.go: case assignStmt, defineStmt", "db208f67c4e0238c"),
    ("cfg.go: rangeStmt, case ptrT", "be6b2770d36e6ffe"),
    ("typecheck.go: addressExpr", "a310c42048108f3c")]
 
